@@ -232,6 +232,23 @@ def sh5(prog, rr):
                 rr.finding(f, d, "Randomizer." + name, "SH5: only %s() of each rand set is disposed; the non-random fields a constraint references were built as constant nodes "
                            "of this solver instance too and keep that stale node (the next call fails with 'different Boolector instance' or silently reverts "
                            "the field)" % g)
+        # dispose loops over a local list instead of the rand sets' own getters: the list must be as wide as what was built
+        for d in [n for n in walk_local(f.node) if isinstance(n, ast.Call) and call_name(n) == "dispose" and not _loop_getter(f, n)]:
+            lps = [lp for lp in _enclosing_loops(f.node, d) if isinstance(lp, ast.For) and norm(lp.target) == (recv_text(d) or "")]
+            if not lps or not isinstance(lps[0].iter, ast.Name):
+                continue
+            lst = lps[0].iter.id
+            fills = [n for n in walk_local(f.node) if isinstance(n, ast.Call) and call_name(n) in ("extend", "append") and recv_text(n) == lst]
+            from rules.r97_round2b import _guards
+            cond = [n for n in fills if _guards(f.node, n)]
+            narrow = [n for n in fills if n.args and isinstance(n.args[0], ast.Call) and isinstance(n.args[0].func, ast.Attribute)
+                      and n.args[0].func.attr not in full]
+            rr.inst("Randomizer.%s disposes the local list %s (filled at %d sites, %d conditional)" % (name, lst, len(fills), len(cond)))
+            if builds and (cond or narrow or not fills):
+                rr.finding(f, d, "Randomizer." + name, "SH5: %s builds solver nodes for the fields of every rand set it is given but disposes only those "
+                           "collected in %s (%s): the other fields keep nodes of this solver instance and the next call fails with 'different "
+                           "Boolector instance'" % (name, lst, "filled conditionally" if cond else "filled from a narrower getter"), text="dispose narrower than build")
+                disp.append(d)
         if builds and not disp and name != "randomize":
             rr.finding(f, f.node, "Randomizer." + name, "SH5: %s builds solver nodes for rand-set fields but never disposes them" % name, text="no dispose")
 
